@@ -63,7 +63,9 @@ CLAIMED = {
         technique="Lean 4 graded-walk theorems on the Batch emitter model + byte-for-byte correspondence + execution under a calibrated cmd.exe model",
         design="7/C05"),
     "C06": dict(
-        text="Parser soundness (Props/C06Sem.lean): every AST the parser model returns - all file systems, import graphs and token sequences - satisfies the executable typing "
+        text="Calls (calls_agree_with_signatures): in the program built from a main file every call of the file's own statements names a function declared before it - by the imported "
+             "statements or earlier in the file - whose parameter types are the arguments' types and whose return types are the call node's. "
+             "Parser soundness (Props/C06Sem.lean): every AST the parser model returns - all file systems, import graphs and token sequences - satisfies the executable typing "
              "predicate PT.program (Model/PTyped.lean: operand, condition, case, index, element and builtin-argument types, variable = value type, declared return types, only "
              "language types); with the two constructs of PT.strict excluded it is typed in the emitters' sense and the Bash emitter returns a script. PT.program is evaluated on "
              "every AST of the real parser in the run. "
